@@ -73,6 +73,8 @@ pub struct Engine {
     pub data_frames_in: u64,
     pub padded_frames_in: u64,
     pub empty_frames_in: u64,
+    /// stream-level WINDOW_UPDATEs queued so far
+    pub stream_updates_out: u64,
 }
 
 impl Engine {
@@ -119,6 +121,7 @@ impl Engine {
             data_frames_in: 0,
             padded_frames_in: 0,
             empty_frames_in: 0,
+            stream_updates_out: 0,
         };
         (e, hello)
     }
@@ -385,6 +388,7 @@ impl Engine {
                         let inc = *e;
                         *e = 0;
                         *granted += inc as u64;
+                        self.stream_updates_out += 1;
                         self.ctrl.extend(encode_frame(&Frame::window_update(f.stream, inc)));
                     }
                 }
@@ -562,6 +566,9 @@ fn filler(n: usize) -> String {
     (0..n).map(|i| (b'a' + (i % 23) as u8) as char).collect()
 }
 
+/// stream windows of the class 'window-shift' (sozu's small stream buffer holds 16 393 bytes)
+const SHIFT_WINDOWS: &[u32] = &[6_000, 9_000, 12_000, 16_384, 20_000];
+
 fn h2_windows(rng: &mut Rng, total_bytes: u64) -> (u32, u32, u32) {
     let stream_window = *rng.pick(&[65_535u32, 65_535, 65_535, 16_384, 32_768, 1 << 20, 20_000]);
     // a large connection window (like browsers) keeps stream-0 WINDOW_UPDATEs rare; the default
@@ -643,6 +650,10 @@ pub fn client_conn(env: &CellEnv, conn: &ConnPlan) -> Vec<XferOutcome> {
     let total: u64 = conn.xfers.iter().map(|x| x.req_size + x.resp_size).sum();
     let (mut sw, cw, mut th) = h2_windows(&mut rng, total);
     let cancel_class = conn.theme == super::CANCEL_REUSE;
+    if conn.theme == super::WINDOW_SHIFT {
+        sw = *rng.pick(SHIFT_WINDOWS);
+        th = sw;
+    }
     if cancel_class {
         // a small stream window that is never reopened for the stream to be cancelled: sozu
         // cannot relay more than this, the rest of the response stays on the backend connection
@@ -1072,10 +1083,16 @@ struct BStream {
     first_seen: bool,
 }
 
-pub fn backend_conn(sh: &Arc<CellShared>, sock: TcpStream, idx: usize, lprog: &IoProgram) {
+pub fn backend_conn(sh: &Arc<CellShared>, sock: TcpStream, idx: usize, lprog: &IoProgram, small_window: bool) {
     let Ok(mut pump) = Pump::new(Io::Plain(sock), lprog.clone()) else { return };
     let mut rng = Rng::new(sh.case.wrapping_mul(0x9E37_79B9) ^ idx as u64);
-    let (sw, cw, th) = h2_windows(&mut rng, u64::MAX);
+    let (mut sw, cw, mut th) = h2_windows(&mut rng, u64::MAX);
+    if small_window {
+        // class 'window-shift': a window smaller than or near sozu's stream buffer, reopened only
+        // when it is used up
+        sw = *rng.pick(SHIFT_WINDOWS);
+        th = sw;
+    }
     let (mut eng, hello) = Engine::new(true, sw, cw, th);
     if std::env::var_os("VH_C01_TRACE").is_some() {
         eng.trace = Some(format!("backend conn{idx} sw={sw} cw={cw} th={th}"));
@@ -1115,9 +1132,14 @@ pub fn backend_conn(sh: &Arc<CellShared>, sock: TcpStream, idx: usize, lprog: &I
         st.sender = Some(Sender::new(id, x.resp_msg, x.resp_size, Some(&shape), list));
     };
 
+    let mut refills_reported = 0u64;
     loop {
         if sh.stop.load(Ordering::Relaxed) {
             return;
+        }
+        if small_window && eng.stream_updates_out > refills_reported {
+            sh.shift_windows_used_up.fetch_add(eng.stream_updates_out - refills_reported, Ordering::Relaxed);
+            refills_reported = eng.stream_updates_out;
         }
         if pump.wfail.is_none() {
             if !eng.ctrl.is_empty() {
